@@ -569,3 +569,16 @@ d:
 e:
   ret i32 1
 }
+;;; ATOM inst/call-addrspace-constexpr-callee
+@g = addrspace(1) global i8 0
+declare void @h() addrspace(1)
+define void @f() personality i8* null {
+  call addrspace(1) void bitcast (i8 addrspace(1)* @g to void () addrspace(1)*)()
+  call addrspace(1) void @h()
+  invoke addrspace(1) void bitcast (i8 addrspace(1)* @g to void () addrspace(1)*)() to label %ok unwind label %lp
+ok:
+  ret void
+lp:
+  %l = landingpad i32 cleanup
+  ret void
+}
